@@ -128,6 +128,8 @@ mod detail {
         LM: MatchLiteral,
         <T as FromStr>::Err: Debug,
     {
+        #[cfg(exmex_verif)]
+        crate::verif::point(crate::verif::Site::UnparseNode);
         let mut node_strings = nodes.iter().map(|n| match n {
             DeepNode::Num(n) => format!("{n:?}"),
             DeepNode::Var((_, var_name)) => format!("{{{var_name}}}"),
@@ -284,6 +286,8 @@ mod detail {
         // according to the length of the sub-expression.
         let mut idx_tkn: usize = 0;
         while idx_tkn < parsed_tokens.len() {
+            #[cfg(exmex_verif)]
+            crate::verif::point(crate::verif::Site::DeepBuildStep);
             match &parsed_tokens[idx_tkn] {
                 ParsedToken::Op((op_idx, op)) => {
                     if parser::is_operator_binary(
@@ -633,6 +637,8 @@ where
             smallvec::smallvec![false; self.nodes.len()];
 
         for (i, &bin_op_idx) in prio_indices.iter().enumerate() {
+            #[cfg(exmex_verif)]
+            crate::verif::point(crate::verif::Site::DeepFoldStep);
             let num_idx = num_inds[i];
             let node_1 = &self.nodes[num_idx];
             let node_2 = &self.nodes[num_idx + 1];
@@ -868,6 +874,8 @@ where
             }
         };
         for node in self.nodes.iter_mut() {
+            #[cfg(exmex_verif)]
+            crate::verif::point(crate::verif::Site::SubsNode);
             match node {
                 DeepNode::Var((_, v)) => {
                     let deepex = sub(v.as_str());
@@ -989,6 +997,8 @@ where
             .nodes()
             .iter()
             .map(|node| -> ExResult<T> {
+                #[cfg(exmex_verif)]
+                crate::verif::point(crate::verif::Site::DeepLoadNode);
                 match node {
                     DeepNode::Num(n) => Ok(n.clone()),
                     DeepNode::Var((idx, _)) => Ok(vars[*idx].clone()),
